@@ -198,6 +198,26 @@ def run_shard(cfg, prop):
             one_generation(acc, prop, m, seed, True, fr, tolerate_raise=True)
         drive(gen_case_lists(), h, max(1, per["random"] // 3), cfg["seed"] + 3)
 
+    # growth that instates heavy end groups through lists while other descriptors stay open (branching units)
+    if prop in ("C06", "C07"):
+        @st.composite
+        def branchy(draw):
+            m = draw(molecules(avoid=AVOID, max_blocks=1, max_atoms=4, small=True, lists=True, to_end=True, plain_ok=False,
+                               arche=draw(st.sampled_from(["branch", "graft", "copoly"]))))
+            fr = [(draw(st.integers(1, 6)), draw(st.sampled_from([0.5, 0.25, -0.5])), draw(st.integers(0, 3)), 1) for _ in range(3)]
+            return m, draw(st.integers(0, 2**31 - 1)), True, fr
+
+        def hb(x):
+            m, seed, forced, fr = x
+            if time.time() > t_end - 0.3 * SOFT_DEADLINE[cfg["tier"]]:
+                return
+            ok, why = reflaw.well_posed(m)
+            if not ok:
+                acc.count("rejected_by_closability_analysis")
+                return
+            one_generation(acc, prop, m, seed, forced, fr)
+        drive(branchy(), hb, max(1, per["random"] // 3), cfg["seed"] + 5)
+
     # bounded instances: every sequence of random choices
     def g(x):
         m, seed, _, fr = x
